@@ -177,6 +177,7 @@ func verifyFunctionOnce(w *World, specs *Specs, ct *Contract, inst map[string]st
 		}
 	}
 	st := &State{env: map[types.Object]Val{}, gh: map[string]Val{}}
+	f.initBigHeap(st)
 	entry := &SpecEnv{names: map[string]Val{}, pkg: src.Pkg.Types, typeArgs: typeArgs, macros: ct.macros()}
 	bind := func(v *types.Var, kind string) {
 		if v == nil {
@@ -194,12 +195,19 @@ func verifyFunctionOnce(w *World, specs *Specs, ct *Contract, inst map[string]st
 			st.assume(fmt.Sprintf("(not (%s.nil %s))", so, val.T))
 			c.note("pointer parameters/receivers assumed non-nil and non-aliased")
 		}
+		if isBigInt(val.Ty) {
+			f.bigParamAssume(st, val.T)
+		}
 	}
 	bind(sig.Recv(), "recv")
 	for i := 0; i < sig.Params().Len(); i++ {
 		bind(sig.Params().At(i), "param")
 	}
 	f.entryEnv = entry
+	entry.gh = map[string]Val{}
+	for k, v := range st.gh {
+		entry.gh[k] = v // old(...) sees the entry values of ghost state (big-int heap)
+	}
 	// preconditions
 	for _, r := range ct.Requires {
 		st.assume(f.specBool(st, r.Expr, entry))
